@@ -108,7 +108,13 @@ def coq_string(s):
 
 
 def norm(s):
-    return re.sub(r"\s+", " ", F.strip_comments(s, canonical=False)).strip()
+    """the text of a body as it is pinned by Properties/C16.v: comments out, equivalent spellings and broken method chains
+    brought to one form (facts.canon), white space collapsed, no trailing comma before a closing bracket"""
+    t = re.sub(r"\s+", " ", F.strip_comments(s)).strip()
+    t = re.sub(r",\s*([)\]])", r"\1", t)
+    t = re.sub(r"([(\[])\s+", r"\1", t)
+    t = re.sub(r"\s+([)\]])", r"\1", t)
+    return re.sub(r"\s*\.\s*(?=[a-z_]+\()", ".", t)
 
 
 def regex_defs(text):
